@@ -13,22 +13,80 @@ theorem include_pushes_own_slot_content (W : World) (f : Nat) (ctx : Ctx) (st : 
     (hd : ¬ ctx.chain.length > includeLimit) (hf : W.files.lookup (getAttr attrs (S "include")) = some (fm, dom))
     (hr : wrapperRequired (resolveTagsList W.comps (assignSeenAttrs (getAttr attrs (S "include")) dom)) ((setMany (st.stack.push vars) fm).envMap W.P.cfg) = none) :
     evalInclude W (f + 1) ctx st attrs kids vars =
-      bindR (evalList W f { slots := extractSlotContent kids :: ctx.slots, chain := ctx.chain ++ [getAttr attrs (S "include")] }
+      bindR (evalList W f { ctx with slots := mergeInherited (extractSlotContent kids) ctx.inherited :: ctx.slots, chain := ctx.chain ++ [getAttr attrs (S "include")] }
               { st with stack := setMany (st.stack.push vars) fm } (resolveTagsList W.comps (assignSeenAttrs (getAttr attrs (S "include")) dom)))
         (fun res st1 => .ok (res, { st1 with stack := st1.stack.pop })) := by
   simp only [evalInclude, hd, ↓reduceIte, hf, hr]
+
+/-- (1b) what an instance's scope holds: the content supplied on its own tag, and — for names the tag supplied nothing for — the named slots
+    the PAGE handed to the layout the instance is rendered in (none outside a layout). The tag's own content always wins. -/
+theorem mergeInherited_nil (own : SlotScope) : mergeInherited own [] = own := rfl
+
+theorem mergeInherited_keeps_own (own inherited : SlotScope) (name : Str) (c : SlotContent) (h : own.lookup name = some c) :
+    (mergeInherited own inherited).lookup name = some c := by
+  unfold mergeInherited
+  induction inherited generalizing own with
+  | nil => exact h
+  | cons e r ih =>
+    simp only [List.foldl_cons]
+    apply ih
+    split
+    · exact h
+    · rename_i hn
+      rw [List.lookup_append]
+      simp [h]
+
+theorem mergeInherited_fills (own inherited : SlotScope) (name : Str) (c : SlotContent)
+    (ho : own.lookup name = none) (hi : inherited.lookup name = some c) :
+    (mergeInherited own inherited).lookup name = some c := by
+  unfold mergeInherited
+  induction inherited generalizing own with
+  | nil => simp at hi
+  | cons e r ih =>
+    obtain ⟨n, c'⟩ := e
+    simp only [List.foldl_cons]
+    simp only [List.lookup] at hi
+    split at hi
+    · -- this entry is the one: it is appended (own has nothing under the name) and kept by the rest of the fold
+      rename_i hn
+      have hn' : name = n := by simpa using hn
+      subst hn'
+      simp only [Option.some.injEq] at hi; subst hi
+      have : (own.lookup name).isSome = false := by simp [ho]
+      simp only [this, Bool.false_eq_true, ↓reduceIte]
+      have hl : (own ++ [(name, c')]).lookup name = some c' := by
+        rw [List.lookup_append]; simp [ho]
+      exact mergeInherited_keeps_own _ r name c' hl
+    · rename_i hn
+      apply ih _ _ hi
+      split
+      · exact ho
+      · rw [List.lookup_append]
+        simp only [ho, Option.none_or, List.lookup]
+        have : (name == n) = false := by simpa using hn
+        simp [this]
 
 /-- (2) a `<slot>` looks its name up in the INNERMOST scope only (the content supplied on this instance's own tag): when that has nothing
     for the name the fallback children are rendered — whatever the surrounding instances were given (`outer` is arbitrary) … -/
 theorem slot_fallback_when_unsupplied (W : World) (f : Nat) (ctx : Ctx) (st : St) (attrs : List Attr) (kids : List Node) (sc : SlotScope) (outer : List SlotScope)
     (hc : ctx.slots = sc :: outer)
-    (h : sc.lookup (if getAttr attrs (S "name") == [] then S "default" else getAttr attrs (S "name")) = none) :
+    (h : sc.lookup (if getAttr attrs (S "name") == [] then S "default" else getAttr attrs (S "name")) = none)
+    (hi : ctx.inherited.lookup (if getAttr attrs (S "name") == [] then S "default" else getAttr attrs (S "name")) = none) :
     evalSlot W (f + 1) ctx st attrs kids = if !kids.isEmpty then evalList W f ctx st kids else .ok ([], st) := by
-  simp only [evalSlot, hc, h]
+  simp only [evalSlot, hc, h, hi]
 
-theorem slot_fallback_at_top_level (W : World) (f : Nat) (ctx : Ctx) (st : St) (attrs : List Attr) (kids : List Node) (hc : ctx.slots = []) :
+theorem slot_fallback_at_top_level (W : World) (f : Nat) (ctx : Ctx) (st : St) (attrs : List Attr) (kids : List Node) (hc : ctx.slots = [])
+    (hi : ctx.inherited.lookup (if getAttr attrs (S "name") == [] then S "default" else getAttr attrs (S "name")) = none) :
     evalSlot W (f + 1) ctx st attrs kids = if !kids.isEmpty then evalList W f ctx st kids else .ok ([], st) := by
-  simp only [evalSlot, hc]
+  simp only [evalSlot, hc, hi]
+
+/-- (2b) a `<slot>` written in a LAYOUT itself (no instance scope), or in a component that was given nothing under the name, for which the
+    page handed content to the layout: that content is placed as parsed — a copy per use, no evaluation, and no recursion (the fallback is
+    not evaluated either) -/
+theorem slot_inherited_in_layout (W : World) (f : Nat) (ctx : Ctx) (st : St) (attrs : List Attr) (kids : List Node) (content : SlotContent) (hc : ctx.slots = [])
+    (hi : ctx.inherited.lookup (if getAttr attrs (S "name") == [] then S "default" else getAttr attrs (S "name")) = some content) :
+    evalSlot W (f + 1) ctx st attrs kids = .ok (content.nodes, st) := by
+  simp only [evalSlot, hc, hi]
 
 /-- … and when content WAS supplied the fallback is never evaluated: plain children are evaluated in the includer-visible stack, a slot
     template in a fresh scope holding the slot's props, popped afterwards. The supplied content is the includer's: it is evaluated with the
